@@ -16,4 +16,5 @@ sed "s#@REPO@#$REPO#" harness/go.mod.tmpl > harness/bin/go.mod
 cp $REPO/go.sum harness/bin/go.sum
 cp $REPO/go.sum harness/go.sum
 (cd harness && timeout 1800 go build -modfile bin/go.mod -tags verif -o bin/gpverif ./cmd/gpverif)
+./check --warm
 echo setup done
